@@ -547,6 +547,55 @@ func ruleLookupOrder(p *Program, r *Reporter) {
 		}
 	}
 	r.Check(varReturned, "a found variable is what the name yields", p.Pos(look.Pos()), "the resolver returns Environment.Get's value", "the value found in the variable store is never returned by the resolver")
+	// … whatever it holds: once the store says the variable exists, no path
+	// leads on to the field cache (a variable that is null, zero or false still
+	// hides the field of the same name)
+	{
+		var okVal ssa.Value
+		for _, ref := range liveRefs(getCall) {
+			if ex, ok := ref.(*ssa.Extract); ok && ex.Index == 1 {
+				okVal = ex
+			}
+		}
+		decided, leak := false, token.NoPos
+		for _, b := range look.Blocks {
+			iff, ok := terminator(b).(*ssa.If)
+			if !ok || okVal == nil {
+				continue
+			}
+			cond, neg := iff.Cond, false
+			if u, ok := cond.(*ssa.UnOp); ok && u.Op == token.NOT {
+				cond, neg = u.X, true
+			}
+			if cond != okVal {
+				continue
+			}
+			decided = true
+			from := b.Succs[0]
+			if neg {
+				from = b.Succs[1]
+			}
+			seen := map[*ssa.BasicBlock]bool{}
+			var walk func(x *ssa.BasicBlock)
+			walk = func(x *ssa.BasicBlock) {
+				if seen[x] {
+					return
+				}
+				seen[x] = true
+				if x == fieldsLookup.Block() {
+					leak = fieldsLookup.Pos()
+					return
+				}
+				for _, sc := range x.Succs {
+					walk(sc)
+				}
+			}
+			walk(from)
+		}
+		if decided {
+			r.Check(!leak.IsValid(), "a variable that exists hides the field whatever it holds", p.Pos(getCall.Pos()), "from the branch on which the variable store has the name no path reaches the field cache", "after the variable store has said that the variable exists there is still a path to the field cache: a variable that holds null (a parameter handed null, a loop variable over a list with a nil member) no longer takes precedence, and the script reads the host's field of the same name instead")
+		}
+	}
 	r.Check(fallNull, "an unknown name yields null", p.Pos(look.Pos()), "every other return is the cached field or the null object", "the resolver can return something other than the variable, the cached field or null")
 }
 
